@@ -64,6 +64,8 @@ mod stack;
 mod state_read;
 pub mod sync;
 mod total_control_flow;
+#[cfg(essential_base_verif)]
+pub mod verif;
 mod vm;
 
 #[cfg(test)]
